@@ -185,7 +185,7 @@ def observe(ns, live, model, I, names=None):
     return obs
 
 
-def lattice_edit(rng, model, I, kinds=("ram", "cpu", "starts", "fixed", "ds", "dur")):
+def lattice_edit(rng, model, I, kinds=("ram", "cpu", "starts", "fixed", "ds", "dur", "type", "type", "t")):
     """one edit that keeps the model on the lattice: returns (edit for efx.apply_edit_*, new I)"""
     import copy
     I2 = copy.deepcopy(I)
@@ -214,6 +214,17 @@ def lattice_edit(rng, model, I, kinds=("ram", "cpu", "starts", "fixed", "ds", "d
             if len(model[up]["lst"]["devices"]) < 3:
                 return ("listop", up, "devices", "append", [rng.choice(model[up]["lst"]["devices"])]), I2
         return lattice_edit(rng, model, I, [k for k in kinds if k != kind] or ("starts",))
+    if kind == "t":         # the time spent in a step (moves every later job of the journey)
+        s = rng.choice(sorted(I["t"]))
+        I2["t"][s] = rng.choice([x for x in (0, 15, 30, 45, 60, 75, 90, 150) if x != I["t"][s]])
+        return ("input", s, "user_time_spent", [I2["t"][s], "min"]), I2
+    if kind == "type":      # the sizing rule of a server
+        cands = [v for v in sorted(I["sv"]) if not I["sv"][v]["fixed"]]
+        if not cands:
+            return lattice_edit(rng, model, I, [k for k in kinds if k != kind] or ("starts",))
+        v = rng.choice(cands)
+        I2["sv"][v]["type"] = rng.choice([x for x in ("autoscaling", "serverless", "on-premise") if x != I["sv"][v]["type"]])
+        return ("opt", v, "server_type", I2["sv"][v]["type"]), I2
     if kind in ("ci", "svci", "net", "pue"):
         table, key, choices = {"ci": (I2["ci"], None, [10, 50, 85]), "svci": (I2["sv"], "ci", [10, 20]),
                                "net": (I2["net"], None, [1, 2, 5]), "pue": (I2["sv"], "pue", [1, 2])}[kind]
